@@ -576,6 +576,9 @@ def gen(rng, n, tier, pid):
     while len(cases) < n:
         esi = rng.random() < 0.15
         nsel = rng.choice([1, 1, 2, 2, 3, 4, 6])
+        if rng.random() < 0.04:
+            # many registered selectors: match-id sets beyond one machine word (DenseHashSet growth / union)
+            nsel = rng.choice([31, 32, 33, 63, 64, 65, 66, 70, 100, 129])
         evs = gen_doc(rng, esi, tier)
         tree = doc_tree(evs, esi)
         sels = []
@@ -611,6 +614,15 @@ def project(pid, case, line):
     line = line.split(" ||ORACLE:")[0]
     if pid.endswith(":hits"):
         return "hits=" + _hits(line)
+    # The predicted `{:?}` dump of the Ast prints DenseHashSet as a machine word; with more than 31 registered
+    # selectors the real set spills to the heap representation, which the dump model does not cover:
+    # compare hits / reference hits / printed CSS only.
+    try:
+        nsel = int(case.split(" ")[2].split(",")[0])
+    except ValueError:
+        nsel = 0
+    if nsel > 31 and " ast=" in line:
+        return line.split(" ast=")[0]
     return line
 
 
